@@ -337,7 +337,7 @@ def pOracle (w : String) : Option PyOracle :=
 /--
 * `tojson <mm> <val>`              → Json wire
 * `fromjson <mm> <class> <json>`   → `ok <val>` | `err` | `crash:<Exception>`
-* `wf <mm>`                        → `<wf><dispatchOkFor each class in order>`
+* `wf <mm>`                        → `<wf><wfXml><dispatchOkFor each class in order>`
 * `conforms <mm> <class> <val>`    → `1` | `0`
 * `b64enc <bytes>` / `b64dec <text>` → text / `ok <bytes>` | `err:<kind>`
 * `name <prop|model> <identifier>` → JSON name
@@ -356,7 +356,7 @@ def handle : List String → Option String
     some (showRes (fromJson mm c j))
   | ["wf", mm] => do
     let mm ← pMM mm
-    some (b mm.wf ++ String.join (mm.classes.map (fun c => b (mm.dispatchOkFor c.name))))
+    some (b mm.wf ++ b mm.wfXml ++ String.join (mm.classes.map (fun c => b (mm.dispatchOkFor c.name))))
   | ["conforms", mm, c, v] => do
     let mm ← pMM mm
     let c ← Text.dec c
